@@ -1,3 +1,3 @@
-(* _client.py :: ncrypt_unprotect_secret :: ('callarg', '_sync_get_key', 0, 'auth_protocol') :  auth_protocol *)
+(* _client.py :: ncrypt_unprotect_secret :: shape kernel :  _sync_get_key(... auth_protocol: auth_protocol  [= auth_protocol] ...) *)
 Definition k_onl_unprot_kw_auth_protocol (auth_protocol : list Z) : list Z :=
   auth_protocol.
